@@ -61,7 +61,7 @@ def run(ctx):
     dist_ct = {}
     shapes_seen = set()
     worst = {"ratio": 0.0}
-    n_autodiff = n_fd = skipped_nonpos = 0
+    n_autodiff = n_fd = skipped_nonpos = n_undocumented = 0
 
     def bump(k):
         dist_ct[k] = dist_ct.get(k, 0) + 1
@@ -116,8 +116,11 @@ def run(ctx):
             node = W.Node("base", W.make_ad("none", rng, width), name=name, ls=float(ls), alpha=alpha)
             cov = node.build()
             KG = np.asarray(cov.k_grad(jnp.asarray(X))(jnp.asarray(Y)))
+            K0 = np.asarray(cov(jnp.asarray(X), jnp.asarray(Y)))
             D, G = mu.distance_grad(jnp.asarray(X))(jnp.asarray(Y))
             D, G = np.asarray(D), np.asarray(G)
+            # the documented derivative is the reference only where the value follows the documented formula (else: C05)
+            documented = all(abs(K0[0, j] - W.phi(name, ls, alpha, float(D[0, j]))) <= 1e-9 for j in range(Y.shape[0]))
             for j in range(Y.shape[0] if T else 4):
                 c = rng.randrange(width)
                 d, g = float(D[0, j]), float(G[0, j, c])
@@ -127,7 +130,8 @@ def run(ctx):
                 if name == "RatQuad":
                     kappa += 4 * alpha + 2 * abs((alpha + 1) * math.log1p(d * d / (2 * alpha * ls * ls)))
                 tol = 8 * W.U * abs(d * W.d2phi(name, ls, alpha, d) * g) + kappa * W.U * abs(v) + W.TINY
-                compare("C11|coefficient|%s" % name, "%s.k_grad is not phi'(dist) times the distance gradient" % name, KG[0, j, c], v, tol,
+                if documented:
+                    compare("C11|coefficient|%s" % name, "%s.k_grad is not phi'(dist) times the distance gradient" % name, KG[0, j, c], v, tol,
                         {"call": "mellon.cov.%s(ls=%r%s).k_grad(x[None])(y[None])[0,0,%d]" % (name, ls, ", alpha=%r" % alpha if alpha else "", c),
                          "x": X[0].tolist(), "y": Y[j].tolist(), "distance_seen": d, "distance_gradient_seen": g})
                 if model:
@@ -170,9 +174,24 @@ def run(ctx):
         shapes_seen.add((node.shape(), node.ad.kind))
         bump("%s/%s" % (group, node.ad.kind))
         active = set(node.ad.index(width))
+        # does the kernel VALUE agree with its documented formula here?  If it does not (that is property C05's
+        # business), the gradient of the documented formula is not the reference for C11: the reference is then the
+        # derivative of what the implementation computes (autodiff of k, finite differences of k).
+        documented = True
+        try:
+            K = np.asarray(cov(jX, jY))
+            for i in range(X.shape[0]):
+                for j in range(Y.shape[0]):
+                    v, t, _, _, ok = node.oracle(X[i], Y[j])
+                    if ok and np.isfinite(v) and np.isfinite(t) and not (abs(K[i, j] - v) <= t + 32 * W.U * abs(v)):
+                        documented = False
+        except Exception:  # noqa
+            documented = False
+        if not documented:
+            n_undocumented += 1
         # autodiff fallback of the base class (jacfwd of k), on a share of the trees in the quick tier
         AD = None
-        if T or group != "depth2" or tn % 3 == 0:
+        if T or group != "depth2" or tn % 3 == 0 or not documented:
             try:
                 AD = np.asarray(bc.Covariance.k_grad(cov, jX)(jY))
                 n_autodiff += 1
@@ -203,17 +222,20 @@ def run(ctx):
                         ctx.violation("C11|finite|%s" % node.shape(), "non-finite gradient", dict(r2, observed=KG[i, j].tolist()))
                     continue
                 for c in range(width):
-                    if not np.isfinite(g[c]):
+                    if not np.isfinite(g[c]) or not documented:
                         continue
-                    compare("C11|gradient|%s" % node.shape(), "k_grad entry differs from the derivative of the documented formula",
+                    compare("C11|gradient|%s" % node.shape(), "k_grad entry differs from the derivative of the kernel's (documented) formula",
                             KG[i, j, c], g[c], gt[c], dict(r2, call="cov.k_grad(x[None])(y[None])[0,0,%d]" % c))
                 if AD is not None and np.all(np.isfinite(AD[i, j])):
                     _, _, g0, gt0, _ = node.oracle(X[i], Y[j], grad=True, code_eps=False)
                     for c in range(width):
-                        if np.isfinite(g0[c]) and np.isfinite(gt0[c]):
-                            # autodiff differentiates the float program: same cancellation, so the same bound applies (x4 for its own rounding)
-                            compare("C11|autodiff|%s" % node.shape(), "jacfwd of k differs from the true derivative (and hence from k_grad)",
-                                    AD[i, j, c], g0[c], 4 * gt0[c], dict(r2, call="Covariance.k_grad(cov, x[None])(y[None])[0,0,%d]" % c))
+                        if np.isfinite(g0[c]) and np.isfinite(gt0[c]) and np.isfinite(g[c]) and np.isfinite(gt[c]):
+                            # analytic gradient against autodiff of the implementation's own k.  Error budget: the analytic
+                            # code's bound, the same cancellation bound for the differentiated float program (x4 for its own
+                            # rounding), and the proved dist/(dist+eps) factor (|g - g0|, from the oracle).
+                            compare("C11|autodiff|%s" % node.shape(), "k_grad differs from jacfwd of the kernel value",
+                                    KG[i, j, c], AD[i, j, c], gt[c] + 4 * gt0[c] + abs(g[c] - g0[c]),
+                                    dict(r2, call="cov.k_grad(x[None])(y[None])[0,0,%d] vs Covariance.k_grad(cov, x[None])(y[None])[0,0,%d]" % (c, c)))
                 if model and (i, j) in picks:
                     cs = [c for c in range(width) if np.isfinite(g[c]) and np.isfinite(gt[c])]
                     if cs:
@@ -260,6 +282,7 @@ def run(ctx):
     ctx.cov["autodiff_trees"] = n_autodiff
     ctx.cov["finite_difference_entries"] = n_fd
     ctx.cov["pairs_outside_model_nonpositive_power_base"] = skipped_nonpos
+    ctx.cov["trees_whose_value_deviates_from_documented_formula_autodiff_reference_only"] = n_undocumented
     ctx.cov["largest_observed_error_over_allowed"] = [round(worst["ratio"], 4), worst.get("key")]
     ctx.cov["rule"] = ("every depth-2 tree shape (5 operators x 6 (x 6) base kernels) with each of the six active_dims forms at the root and random forms below, "
                        "every base kernel x every form, 25-feature kernels, sampled depth-3 trees; point sets with coincident, 1e-7 and 1e-10-relative near-coincident, "
